@@ -44,6 +44,7 @@ def dispatch (line : String) : String :=
   | "fwrite" :: w => fwriteOp w
   | "fread" :: w => freadOp w
   | "aread" :: w => areadOp w
+  | "areadm" :: w => areadmOp w
   | "awrite" :: w => awriteOp w
   | "denc" :: w => Dv.dencOp w
   | "dspec" :: w => Dv.dspecOp w
